@@ -268,7 +268,10 @@ def policy_level(chk, theorems_ok):
     import runner_common as rc
     keep = {"defer": True}
     saved = {k: chk.coverage.get(k) for k in ("evaluations", "distinct_nontrivial", "traces_validated_against_impl", "rule", "samples")}
-    rc.run_runner_check(chk, "C10", "proj_C10", {"p_budget": 1.0, "p_single": 0.2, "p_fail_exc": 0.7, "p_tight_deadline": 0.1},
+    rc.run_runner_check(chk, "C10", "proj_C10", {"p_budget": 1.0, "p_single": 0.2, "p_fail_exc": 0.7, "p_tight_deadline": 0.1,
+                                                  # the budget reaches the loop whoever builds the policy
+                                                  "entries": ["retry", "retry", "retry.ctx", "retrypolicy", "decorator", "retrycfg",
+                                                              "retrypolicycfg", "retrypolicyattr"]},
                         theorems_ok=theorems_ok, n_quick=250, n_thorough=4000, oracle_pid="C10", keep_result=keep)
     # run_runner_check overwrote the top-level counters: fold them into a sub-dictionary
     pl = {k: chk.coverage.pop(k) for k in ("distribution", "projection", "abort_sentinel_scripts") if k in chk.coverage}
